@@ -216,7 +216,9 @@ static void lfq_point(void)
 	if (in_op[me] && !in_crcu[me]) {
 		opstep[me]++;
 		if (solo_tid == me) {
-			if (opstep[me] > solo_bound)
+			/* concrete alarm only well beyond the model's bound (4x + 16): a harmless extra access must not look like
+			 * a progress failure; the exact count is compared by the driver against mu (a divergence, not an oracle) */
+			if (opstep[me] > 4 * solo_bound + 16)
 				solo_fail(me);
 		} else if (park_req[me] && opstep[me] == park_req[me]) {
 			park_req[me] = 0;
